@@ -82,6 +82,12 @@ def _check_message_total(run: Run, m, fi: FuncInfo, r: ast.Raise) -> None:
         bad = _partial_reads(m, tgt)
         if isinstance(r.exc.func, ast.Name) and tgt.name == r.exc.func.id:
             continue  # the exception factory itself (its type is judged above)
+        # an assert that was enumerated for the function the refusal stands in (it used to precede the raise there) and
+        # now sits in a private helper that only that function calls: the same assert, still enumerated
+        if bad and (ASSERT_WHITELIST.get(fi.qual) or _BY_PATH.get(fi.qual.split(":")[1])):
+            from ..lib import call_sites_of as _cs
+
+            bad = [b_ for b_ in bad if not (isinstance(b_[1], ast.Assert) and b_[0].is_private and all(c_.qual == fi.qual for c_, _a, _b in _cs(m, b_[0])))]
         run.check(
             not bad,
             "C10.R4",
